@@ -68,6 +68,21 @@ func convJob(cf convCfg) opJob {
 			}
 			return W0.F(i)
 		})
+	case "zero-weight-inf-input":
+		// an exact-zero weight meets an infinite input element: 0 * Inf = NaN belongs to the sum
+		X0, W0 := X, W
+		X = ref.Fill(cf.dt, cf.x, func(i int) float64 {
+			if i == 3 {
+				return math.Inf(1)
+			}
+			return X0.F(i)
+		})
+		W = ref.Fill(cf.dt, cf.w, func(i int) float64 {
+			if i%3 == 0 {
+				return 0
+			}
+			return W0.F(i)
+		})
 	case "inf-input":
 		X0 := X
 		X = ref.Fill(cf.dt, cf.x, func(i int) float64 {
@@ -332,6 +347,35 @@ func checkC05(c *hx.Checker) {
 				// contributes nothing; gonnx dilates the KERNEL by inserting zeros and multiplies it (KF-C05-2)
 				cf.extra = append(cf.extra, "infinite-input-between-dilated-taps")
 			}
+			jobs = append(jobs, convJob(cf))
+		}
+	}
+	// pointwise (1x1) and other convolutions over many channels (the shape in which a convolution is a matrix product)
+	for _, fill := range []string{"", "zero-weight-inf-input", "inf-input", "nan-weight"} {
+		for _, cf := range []convCfg{
+			{dt: ref.F32, x: []int{2, 8, 3, 3}, w: []int{4, 8, 1, 1}, bias: true, a: ref.ConvAttrs{}, route: "op"},
+			{dt: ref.F32, x: []int{1, 16, 2, 5}, w: []int{3, 16, 1, 1}, bias: false, a: ref.ConvAttrs{}, route: "op"},
+			{dt: ref.F32, x: []int{1, 9, 7}, w: []int{2, 9, 1}, bias: true, a: ref.ConvAttrs{}, route: "op"},
+			{dt: ref.F32, x: []int{1, 12, 4, 4}, w: []int{2, 12, 2, 2}, bias: false, a: ref.ConvAttrs{}, route: "op"},
+		} {
+			cf.fill = fill
+			cf.extra = []string{"many-channels"}
+			if fill != "" {
+				cf.extra = append(cf.extra, "non-finite")
+			}
+			jobs = append(jobs, convJob(cf))
+		}
+	}
+	// SAME padding with a kernel larger than the map (3x3 on 2x2 and 1x1 maps, 5 on 2, dilated 2-tap on 1)
+	for _, ap := range []string{"SAME_UPPER", "SAME_LOWER"} {
+		for _, cf := range []convCfg{
+			{dt: ref.F32, x: []int{1, 1, 2, 2}, w: []int{1, 1, 3, 3}, bias: true, a: ref.ConvAttrs{AutoPad: ap}, route: "op"},
+			{dt: ref.F32, x: []int{1, 2, 1, 1}, w: []int{2, 2, 3, 3}, bias: false, a: ref.ConvAttrs{AutoPad: ap}, route: "op"},
+			{dt: ref.F32, x: []int{2, 1, 2}, w: []int{1, 1, 5}, bias: false, a: ref.ConvAttrs{AutoPad: ap}, route: "op"},
+			{dt: ref.F32, x: []int{1, 1, 1}, w: []int{1, 1, 2}, bias: true, a: ref.ConvAttrs{AutoPad: ap, Dilations: []int{2}}, route: "op"},
+			{dt: ref.F32, x: []int{1, 1, 1, 4}, w: []int{1, 1, 3, 2}, bias: false, a: ref.ConvAttrs{AutoPad: ap}, route: "model"},
+		} {
+			cf.extra = []string{"kernel-larger-than-map"}
 			jobs = append(jobs, convJob(cf))
 		}
 	}
